@@ -30,6 +30,40 @@ def run_workflow(out, prop, tier):
     out.judge(core.for_property(bad, prop), "workflow", lambda v, p: {"engine": "workflow", "orders": str(v["orders"])})
 
 
+def run_mb_traces(out, tier):
+    """direction B: recorded histories on random systems, validated by TLC (spec/trace/Trace_MassBalance.tla)"""
+    from . import trace_massbalance as tm
+    ntraces, nsteps = (25, 12) if tier == "quick" else (400, 25)
+    total = events = 0
+    from concurrent.futures import ThreadPoolExecutor
+    batches = [tm.record_batch(uid, ntraces, nsteps, out.seed) for uid in range(len(tm.UNIVERSES))]
+    with ThreadPoolExecutor(max_workers=len(batches)) as ex:
+        verdicts = list(ex.map(lambda b: tm.validate_batch(b, workers=2 if tier == "quick" else 4), batches))
+    for uid, (batch, (acc, rej, res)) in enumerate(zip(batches, verdicts)):
+        out.states += res.distinct
+        out.transitions += res.generated
+        out.models.append({"model": f"Trace_MassBalance/universe{uid}", "states": res.distinct, "generated": res.generated,
+                           "traces": len(batch["traces"]), "accepted": len(acc), "wall_s": round(res.wall, 2)})
+        total += len(batch["traces"])
+        events += sum(len(t["events"]) for t in batch["traces"])
+        bad = []
+        for tid, (pos, clause) in rej.items():
+            tr = batch["traces"][tid - 1]
+            vec = {"universe": batch["universe"], "trace": {"sys": tr["sys"], "events": tr["events"][:pos]}}
+            bad.append((vec, [f"{{C02}} recorded history rejected by the specification at event {pos} ({tr['events'][pos - 1]['op']}): {clause}"]))
+        out.judge(bad, "mb_trace", lambda v, p: {"engine": "mb_trace", "op": v["trace"]["events"][-1]["op"], "clause": p[0].split(": ")[-1][:40]})
+        if uid == 0 and batch["traces"]:
+            t0 = batch["traces"][0]
+            out.samples.append(core.sample_of({"recorded_system": {"procs": t0["sys"]["procs"], "flows": [[f["name"], f["dims"]] for f in t0["sys"]["flows"]],
+                                                                   "stocks": [[s["name"], s["proc"], s["dims"]] for s in t0["sys"]["stocks"]]},
+                                               "events": [[e["op"], e["obj"], e["val"], e["tol"], e["outcome"], e["failing"], e["flagged"]] for e in t0["events"][:8]]}, 900))
+    out.traces_validated += total
+    out.extra["recorded_histories_validated_by_TLC"] = total
+    out.extra["recorded_events"] = events
+    outcomes = out.extra.setdefault("recorded_check_outcomes", {})
+    return total
+
+
 def check_C02(tier, seed):
     out = Outcome("C02", tier, seed)
     maxflows = 2 if tier == "quick" else 5
@@ -56,6 +90,7 @@ def check_C02(tier, seed):
         k = f"{v['pert']['obj']}:{v['pert']['op']}:{v['pert']['val']}"
         kinds[k] = kinds.get(k, 0) + 1
     run_workflow(out, "C02", tier)
+    run_mb_traces(out, tier)
     out.exhaustive = True
     out.assumptions += [
         "workflow engine: the library's own how-to system (spec/Workflow.tla) with FORMAL parameters: TLC proves the balance of process_a "
